@@ -215,7 +215,7 @@ vr_trace(const char *fmt, ...)
 const char *
 __asan_default_options(void)
 {
-	return "detect_leaks=0:allocator_may_return_null=1:detect_stack_use_after_return=0:abort_on_error=0";
+	return "detect_leaks=0:allocator_may_return_null=1:detect_stack_use_after_return=0:abort_on_error=0:handle_abort=1";
 }
 const char *
 __ubsan_default_options(void)
